@@ -159,7 +159,7 @@ class TTY(object):
                 log.error("incomplete frame header")
                 raise IOError(errno.EIO, os.strerror(errno.EIO))
             LEN = frame[3]
-            if LEN == 0xFF:
+            if LEN == 0xFF and frame[4] == 0xFF:
                 frame += self.tty.read(3)
                 if len(frame) < 9:
                     log.error("incomplete extended frame header")
